@@ -929,18 +929,26 @@ def t2_add_mul_int (To_Policy : Policy) (From1_Policy : Policy) (From2_Policy : 
       if decide (to ≤ 0) then
         t2_set_neg_overflow_int To_Policy Ty to dir
       else
-        t2_assign_nan To_Policy Ty to V_UNKNOWN_NEG_OVERFLOW
+        if dir.roundUp then
+          let to : Int := (to + (Ty.emin To_Policy))
+          (to, V_LT)
+        else
+          t2_assign_nan To_Policy Ty to V_UNKNOWN_NEG_OVERFLOW
     else
       if (Result.resultOverflow r) == 1 then
         if decide (to ≥ 0) then
           t2_set_pos_overflow_int To_Policy Ty to dir
         else
-          t2_assign_nan To_Policy Ty to V_UNKNOWN_POS_OVERFLOW
+          if dir.roundDown then
+            let to : Int := (to + (Ty.emax To_Policy))
+            (to, V_GT)
+          else
+            t2_assign_nan To_Policy Ty to V_UNKNOWN_POS_OVERFLOW
       else
         (to, V_NAN)
 -- [end]
 
-/-- `sub_mul_int` (checked_int_inlines.hh:1614) -/
+/-- `sub_mul_int` (checked_int_inlines.hh:1626) -/
 -- [t2:sub_mul_int]
 def t2_sub_mul_int (To_Policy : Policy) (From1_Policy : Policy) (From2_Policy : Policy) (Ty : IntTy) (to : Int) (x : Int) (y : Int) (dir : Dir) : Int × Result :=
   let (z, r) := t2_mul To_Policy From1_Policy From2_Policy Ty 0 x y dir
@@ -952,13 +960,21 @@ def t2_sub_mul_int (To_Policy : Policy) (From1_Policy : Policy) (From2_Policy : 
       if decide (to ≥ 0) then
         t2_set_pos_overflow_int To_Policy Ty to dir
       else
-        t2_assign_nan To_Policy Ty to V_UNKNOWN_NEG_OVERFLOW
+        if dir.roundDown then
+          let to : Int := (to - (Ty.emin To_Policy))
+          (to, V_GT)
+        else
+          t2_assign_nan To_Policy Ty to V_UNKNOWN_NEG_OVERFLOW
     else
       if (Result.resultOverflow r) == 1 then
         if (decide (to < 0) || ((to == 0) && decide (((Ty.emin To_Policy) + (Ty.emax To_Policy)) ≥ 0))) then
           t2_set_neg_overflow_int To_Policy Ty to dir
         else
-          t2_assign_nan To_Policy Ty to V_UNKNOWN_POS_OVERFLOW
+          if (dir.roundUp && decide ((Ty.emin To_Policy) < 0)) then
+            let to : Int := (to - (Ty.emax To_Policy))
+            (to, V_LT)
+          else
+            t2_assign_nan To_Policy Ty to V_UNKNOWN_POS_OVERFLOW
       else
         (to, V_NAN)
 -- [end]
